@@ -58,24 +58,29 @@ CLAIMS = {
             "number of generated moves); the set-valued attack queries and is_capture = the rules' (AttackSets, CaptureFacts); and against the rules' own tree: "
             "perft d p = Rules.leaves d (abs_state p) for every depth and count_moves p = number of legal moves of the rules, on every position satisfying the "
             "invariant and ep_ok_b (PerftRules: C01's equivalence + C02's refinement + closure; the rules list no move twice). Tie to the code: correspondence run.", "DESIGN.md section 6 C08", ""),
-    "C09": ("proof", "Coq proof of shape, square-name injectivity and injectivity of the Chess960 notation + differential on all legal moves incl. parser round trip",
-            "PARTIAL proof. Proved: string shape, square names injective, Chess960-mode strings determine the move. Standard-mode injectivity on standard "
-            "geometry and the parser round trip: correspondence run.", "DESIGN.md section 6 C09", ""),
-    "C11": ("proof", "Coq: root-level theorem (empty table, every successor rule-drawn, no key clash with the root => every reported iteration >= 2 scores the draw constant and the answer is legal, for every stop predicate and fuel) on top of the node-level draw lemmas + real searches on generated all-drawn roots",
-            "Proof on the model: a non-root node with clock >= 100 or a repeated key in the look-back window (halfmoves + 1 entries) returns the draw score; and at the root (C11_root_all_drawn): "
-            "for every stop predicate and fuel, starting from an empty table (new or cleared), if every generated move of the root leads to a position that is rule-drawn as the child node "
-            "sees the history, and no successor's key equals the root's key, then every reported iteration of depth >= 2 carries -DRAW_SCORE (one constant) and the answer is a legal move. "
-            "That the histories built by the UCI layer make the successors rule-drawn, and the tie to the binary, rest on running real searches on generated all-drawn roots.",
-            "DESIGN.md section 6 C11 and section 9", "modulo fuel; no_clash excludes 64-bit key collisions between the root and its successors"),
+    "C09": ("proof", "Coq proof: for every generated (= legal, C01) move the printed string is the specification's notation, distinct moves print differently and the parser resolves the printed string to the same move; shape, square-name injectivity, Chess960 strings determine the move + differential on all legal moves incl. parser round trip",
+            "Proof on the model over the property's domain (standard mode on positions where a side that may castle has its king on the e-file, Chess960 mode on all positions): for every "
+            "move the generator emits -- with C01's equivalence, every legal move of the rules -- the printed string is the specification's notation (absolute origin and destination, promotion "
+            "letter, castling e1g1/e1c1/e8g8/e8c8 in standard mode and king-takes-rook in Chess960 mode), distinct legal moves print differently, and the move parser resolves the printed string to "
+            "the same move (C09_every_legal_move_has_its_notation). The geometry premise is needed: in 5k2/8/8/8/8/8/8/5K1R w K, which the parser accepts in standard mode, the king step f1g1 and "
+            "castling print the same string (C09_standard_geometry_is_needed; outside the property's domain). The correspondence run compares Mv::to_uci and the parser of the binary with the model.",
+            "DESIGN.md section 6 C09 and section 9", ""),
+    "C11": ("proof", "Coq: root-level theorems -- for every bounded table, history and depth limit (and the unlimited search), every successor rule-drawn => every reported iteration >= 2 scores the draw constant and the answer is legal (a zero-window score that a table entry distorted either fails low or is searched again with the open window); also for every stop predicate from an empty table -- on top of the node-level draw lemmas + real searches on generated all-drawn roots",
+            "Proof on the model: a non-root node with clock >= 100 or a repeated key in the look-back window (halfmoves + 1 entries) returns the draw score; at the root (C11_root_all_drawn_any_table): "
+            "for EVERY table with bounded scores (the empty table of the property text with no key condition, or a table of misleading entries), every history and depth limit >= 1 and the unlimited search, if every "
+            "generated move of the root leads to a position that is rule-drawn as the child node sees the history, every reported iteration of depth >= 2 carries -DRAW_SCORE (one constant) and the answer is a "
+            "legal move; C11_root_all_drawn covers interrupted searches (any stop predicate) from an empty table. That the histories built by the UCI layer make the successors rule-drawn, and the tie to the "
+            "binary, rest on running real searches on generated all-drawn roots.",
+            "DESIGN.md section 6 C11 and section 9 (tenth proof round)", ""),
     "C12": ("proof", "Coq proof: a search value strictly inside its window is honest for any bounded table (zero-window cut-offs are re-searched), hence a root with a mating move reports MATE-1 at every iteration and answers with a mating move + real searches on mate-in-one roots with fresh and pre-filled tables",
             "Proof on the model: for every table whose scores are within the mate bounds, every history and depth limit >= 1 (and the unlimited search): if a generated "
             "move of the root mates, the clock is below 99, the mated position is no repetition and the table never answers for the mated position's key (no entry "
-            "under that key, and no position of the search tree with a legal move has that key: mated nodes are never stored, so only a 64-bit key collision could "
-            "create one), the search answers with a mating move and every reported score is MATE_SCORE - 1 (C12_mate_in_one_is_played). Core lemma: a value strictly "
+            "under that key, and no position with a legal move within `fuel` plies of the root has that ONE key: mated nodes are never stored, so only a 64-bit collision with it could "
+            "create one; the fuel may be the smallest for which the search returns, and for the example position the premise is discharged by enumeration: C12_closed_instance), the search answers with a mating move and every reported score is MATE_SCORE - 1 (C12_mate_in_one_is_played). Core lemma: a value strictly "
             "inside the window lies between -MATE+ply and MATE-ply-1 and equals -MATE+ply only at a mated node, whatever the table holds. The key premise is needed: "
             "witness run with one bounded entry under the mated key (C12_misleading_entry_under_the_mated_key) -- 'whatever the table contains' holds of the tables "
             "the engine can produce, not of a foreign table. Real searches (depth 1..4, fresh and pre-filled tables) on generated mate-in-one roots tie model and code.",
-            "DESIGN.md section 6 C12 and section 9 (eighth proof round)", "key premise (no 64-bit collision with the mated position inside the search tree) is a hypothesis"),
+            "DESIGN.md section 6 C12 and section 9 (eighth proof round)", "key premise SafeN (no position with a legal move within fuel plies of the root has the mated position's key) is a hypothesis"),
     "C04": ("proof", "Coq proofs: recomputed key = function of the abstract 8x8 state (XOR-sum over squares, linear in the boards); predicted key = recomputed key after the move for every move kind incl. castling, makemove stores the prediction, null move; minimum distance of the key code (vm_compute sweep over regenerated tables) + differential on incremental/recomputed keys",
             "Proved on the model: (a) calculate_hash p = spec_key (abs_state p): the key is a function of placement, side to move, castling "
             "rights held and en-passant file only -- not of counters, stored perspective or path; (b) predict_hash p m = calculate_hash "
